@@ -254,7 +254,7 @@ def run(tier, workers=None):
     fix_all = True
     for cfg in cfgs:
         d = 3 if tier == "quick" else 4
-        res = explore.explore(cfg.make, max_depth=d, workers=workers, max_states=1500 if tier == "quick" else 8000)
+        res = explore.explore(cfg.make, max_depth=d, workers=workers, max_states=1500 if tier == "quick" else 8000, budget_s=None if tier == "quick" else 90)
         for e in res.errors:
             rep.harness_error(e[:1500])
         for sig, e in res.violations.items():
